@@ -70,7 +70,9 @@ def _snake_to_camel(snake_str: str) -> str:
             (e.g., ``"myActionName"``).
     """
     components = snake_str.split("_")
-    return components[0] + "".join(x.title() for x in components[1:])
+    return components[0] + "".join(
+        x[:1].upper() + x[1:] for x in components[1:]
+    )
 
 
 # -------------------------------------------------------------------------
